@@ -19,14 +19,21 @@ TRUSTED_BASE = [
     "net/rpc + gob deliver a call's argument and reply unchanged (C12 gob_preserves covers the data types' own codecs); Go mutexes/channels as specified",
 ]
 ASSUMPTIONS = [
-    "a broadcast round is one atomic event of the model (payload read, RPCs, replies counted); a Commit that lands between the payload "
-    "read and the reply handling of the same round is below the model's granularity (see notes/C13.md)",
+    "a broadcast round is one atomic event of the model (payload read, RPCs, replies counted). The finer interleaving 'local section inside "
+    "a round in flight' is exercised on the real code (event gt: the round is held inside the payload's GobEncode) and tied to the model "
+    "sequence tick; section events; merges - valid since fix 0c26be54 (replies of a round no longer pay off a commit that landed inside it)",
     "owed_after_commit and eventual_delivery: every broadcast round reaches every other node of the mesh ('for peers reachable from the time "
     "of the update'); the safety theorems hold for any subset of answering peers",
-    "the correspondence check exercises eager merging only (the merger goroutine of crdt.go cannot be held back); the theorems cover any merge timing",
+    "the correspondence check exercises eager merging, plus (event gm) a merge held inside Merge while a local section is attempted: on the "
+    "correct code the section waits for the merger (merge step atomic, as in the model); the theorems cover any merge timing",
+    "payload-level oracle (owed / received / committed-state-kept / final equality on the real states through the real Merge) for GCounter and "
+    "LWWSet payloads; AWORSet payloads are checked through the tie and the section flag only (its Merge is not a semilattice: C12 known finding)",
 ]
-RULE = ("cases = schedules from one PRNG (VERIF_SEED): 2-4 nodes in a full mesh (peer lists with or without the node itself, optionally "
-        "naming an unreachable peer), 6-40 events of write / commit / abort / tick / external ReceiveValue, generated section-aware "
+RULE = ("cases = schedules from one PRNG (VERIF_SEED): payload GCounter (1/2), LWWSet (1/3) or AWORSet (1/6); 2-4 nodes in a full mesh (peer lists "
+        "with or without the node itself, optionally naming an unreachable peer), 6-36 events of write (sets: add/remove over 2 elements, so "
+        "re-adds of present and removes of absent elements are frequent) / commit / abort / tick / external ReceiveValue / gm (merge held "
+        "inside Merge while a local write-commit, write-abort, commit or abort is attempted) / gt (broadcast round held after the payload was "
+        "read while a local section runs), at most 2 gated events per case, generated section-aware "
         "(ticks between a write and its commit, broadcasts and external values arriving during a section that then aborts or commits), "
         "then a finale closing all sections and ticking every node twice. Non-trivial = a tick or a receive falls inside an open section; "
         "distinct by canonical event text.")
@@ -390,15 +397,18 @@ def run(ctx):
 MANIFEST = {
     "category": "proof",
     "technique": "Coq invariants over all event interleavings of the resource model, for any join-semilattice payload (Section hypotheses, "
-                 "instantiated with the GCounter of C12) + differential correspondence against real NewCRDT instances on loopback "
-                 "(ticks and snapshots through verif hooks, ReceiveValue over net/rpc) + implementation-side oracle",
+                 "instantiated with the GCounter of C12) + differential correspondence against real NewCRDT instances on loopback with GCounter, "
+                 "LWWSet and AWORSet payloads (ticks and snapshots through verif hooks, ReceiveValue over net/rpc, one Merge / one GobEncode "
+                 "held by a gated payload wrapper to place local sections inside a merge or a broadcast round) + implementation-side oracle "
+                 "at Read level and at payload level",
     "text": ("Theorems in coq/Properties/C13.v, closed under the global context, for every list of events write/commit/abort/tick(any subset of "
              "answering peers)/external ReceiveValue/merge step on any number of nodes: inflight_never_broadcast (every payload and reply is below "
              "the committed/injected states), aborted_disappears + abort_restores, received_never_lost (everything received stays covered by value "
              "and queue, also after an abort), owed_after_commit + commit_sets_owed (count 0 only if every other peer received a state above the "
              "last commit; broadcasts reaching all peers), eventual_delivery (bounded-round quiescent convergence in a full mesh) and its GCounter "
-             "instance gcounter_resource_converges (all replicas read the same number). The theorems are about crdt.go after two fix: commits "
-             "(merge into oldValue during a section; owed count set at Commit); on the pinned code the check reports received-state-lost, "
+             "instance gcounter_resource_converges (all replicas read the same number). The theorems are about crdt.go after three fix: commits "
+             "(merge into oldValue during a section; owed count set at Commit; replies of a round do not pay off a commit that landed inside it); "
+             "on the pinned code the check reports received-state-lost, "
              "owed-broadcast-consumed and no-convergence from the corpus seeds."),
     "level_note": ("Trusted: Coq kernel; the hand-written model (tie = differential testing on 150 quick / 3000 thorough schedules with eager merging: "
                    "the merger goroutine cannot be held back, the theorems cover any merge timing); a broadcast round is atomic in the model (a Commit "
